@@ -204,6 +204,28 @@ def gallery_formats():
     return out
 
 
+def uses_seeking(con, seen=None):
+    """does the format contain Pointer/Seek/Peek/OffsettedEnd members?  Two members of such a format can alias the same bytes, and a
+    mutated offset makes them overlap: there is then no encoding that parses back to both values (the later write wins)"""
+    seen = set() if seen is None else seen
+    if id(con) in seen:
+        return False
+    seen.add(id(con))
+    if isinstance(con, (C.Pointer, C.Peek, C.OffsettedEnd)) or type(con).__name__ == "Seek":
+        return True
+    if isinstance(con, C.Construct):
+        try:
+            values = list(vars(con).values())
+        except TypeError:
+            return False
+        return any(uses_seeking(v, seen) for v in values)
+    if isinstance(con, (list, tuple)):
+        return any(uses_seeking(v, seen) for v in con)
+    if isinstance(con, dict):
+        return any(uses_seeking(v, seen) for v in con.values())
+    return False
+
+
 def campaign_gallery(ctx):
     fmts = gallery_formats()
     for i, (name, con, path) in enumerate(fmts):
@@ -234,7 +256,7 @@ def campaign_gallery(ctx):
 
     @st.composite
     def mut_cases(draw):
-        idx = draw(st.sampled_from([i for i, (n, c, p) in enumerate(fmts) if os.path.getsize(p) < 200000]))
+        idx = draw(st.sampled_from([i for i, (n, c, p) in enumerate(fmts) if os.path.getsize(p) < 200000 and not uses_seeking(c)]))
         blob = open(fmts[idx][2], "rb").read()
         return [idx, draw(mutated(blob[:draw(st.sampled_from([64, 256, 1024, len(blob)]))], max_ops=2))]
     if ctx.shard == 0:
